@@ -171,6 +171,8 @@ def decoder_shift_rules(F, ok, rep, P):
         oks = [bi for bi, s in agg_sites(da, "std::result::Result", "Ok") if s["d"]["l"] == 0 and not s["d"]["p"]]
         shl = [1 for c in F.closures_of(da) for _, t in c.calls() if (t["f"].get("path") or "") == "std::ops::ShlAssign::shl_assign"]
         extra = [loc_of(c, t) for c in [da] + F.closures_of(da) for _, t in c.calls() if (t["f"].get("path") or "") == "std::ops::Shl::shl"]
+        sa_ = [loc_of(c, t) for c in [da] + F.closures_of(da) for _, t in c.calls() if (t["f"].get("path") or "") == "std::ops::ShlAssign::shl_assign"]
+        extra += sa_[1:] if len(sa_) > 1 else []
         extra += [c.loc(st_["sp"]) for c in [da] + F.closures_of(da) for bl in c.blocks for st_ in bl["s"] if st_["rv"]["r"] == "bin" and st_["rv"]["op"] == "Shl"]
         rep.check(P + ".wasted", "streaming decoder shifts by the wasted bits exactly once (no arm shifts on its own)", not extra, loc_of(da), "",
                   "a subframe arm of decode::read_subframe shifts its samples itself (%s) and the common wasted-bits shift runs as well: those samples are shifted twice" % extra)
